@@ -365,3 +365,32 @@ Definition kviolation_details (cs : list c10_kcase) : list Z :=
                          ++ go r (i + 1)%Z
                  end
      end) cs 0%Z.
+
+(* ---- histories (Model/DecisionSrc.v) on a declaration in any containers: the variables of the history are the
+   variables the declaration means; the refusal of a declaration in a container YAML cannot produce is neither a
+   disagreement with the model nor a breach of the refusal rule (clause 7) *)
+
+Definition refused_build (s : hstep) : bool := match h_op s with HBuild None => true | _ => false end.
+
+Definition khist_mismatch (d : wdesc) (decl : list pval) (c : c10_hist) : bool :=
+  if negb (canonical decl) && existsb refused_build (hc_steps c) then false else hist_mismatch d c.
+
+Definition khist_clauses (decl : list pval) (c : c10_hist) : list (nat * list nat) :=
+  if canonical decl then hist_clauses c
+  else filter (fun e => negb (match nth_error (hc_steps c) (fst e) with Some s => refused_build s | None => false end
+                              && forallb (Nat.eqb 7) (snd e)))
+              (hist_clauses c).
+
+Definition khist_mismatches (d : wdesc) (cs : list (list pval * c10_hist)) : list Z :=
+  indices_where (fun e => khist_mismatch d (fst e) (snd e)) cs 0%Z.
+
+(* flat, per violating history: index, first offending step, number of clauses of that step, the clauses *)
+Definition khist_details (cs : list (list pval * c10_hist)) : list Z :=
+  (fix go (l : list (list pval * c10_hist)) (i : Z) : list Z :=
+     match l with
+     | [] => []
+     | c :: r => match khist_clauses (fst c) (snd c) with
+                 | [] => go r (i + 1)%Z
+                 | (k, cl) :: _ => (i :: Z.of_nat k :: Z.of_nat (List.length cl) :: map Z.of_nat cl) ++ go r (i + 1)%Z
+                 end
+     end) cs 0%Z.
